@@ -255,7 +255,9 @@ func inject(r *gen.Rand, v *spec.Version, s string, f func(d defect)) {
 			}
 		}
 		// unknown abbreviation inserted before element i (and at the very end)
-		unk := []string{"XX", strings.ToLower(k), k + "X", "M" + k + "Q", gen.AllAbvs[r.Intn(len(gen.AllAbvs))], "Z"}
+		unk := []string{"XX", strings.ToLower(k), k + "X", "M" + k + "Q", gen.AllAbvs[r.Intn(len(gen.AllAbvs))], "Z",
+			// bytes that are not valid UTF-8, and valid non-ASCII: the error must carry the abbreviation byte for byte
+			"\xff" + k, k[:1] + "\x80" + k[1:], k + "\xc3", "\u00e9" + k, k + strings.Repeat("Q", 300)}
 		// look-alikes of this element's own abbreviation (same length, same first and/or last byte)
 		if la := lookalikes(k); len(la) > 0 {
 			unk = append(unk, la[r.Intn(len(la))], la[r.Intn(len(la))], la[len(la)-3], la[len(la)-4])
